@@ -99,6 +99,11 @@ func (pr *playerRunner) UpdateTableState(table *pokertable.Table) error {
 			return nil
 		}
 
+		// the table is already marked as playing a moment before the first hand state arrives
+		if gs == nil {
+			return nil
+		}
+
 		// Filtering private information fpr player
 		gs.AsPlayer(gamePlayerIdx)
 
